@@ -1688,7 +1688,33 @@ static void run_periodic_history(uint64_t seed, bool thorough)
     opt.export_timeout_millis  = std::chrono::milliseconds(c.timeout_ms);
     std::shared_ptr<sdkmetrics::MetricReader> reader(new sdkmetrics::PeriodicExportingMetricReader(
         std::unique_ptr<sdkmetrics::PushMetricExporter>(new RecMetricExporter(script)), opt));
-    provider->AddMetricReader(reader);
+    // 0..2 decoy readers with their own exporters around the reader under observation (seeded position): a
+    // provider-level ForceFlush / Shutdown must reach every reader, whatever the others do with the time budget
+    std::vector<std::shared_ptr<Script>> decoy_scripts;
+    std::vector<std::shared_ptr<sdkmetrics::MetricReader>> decoy_readers;
+    int ndecoys = c.via_provider ? static_cast<int>((seed >> 40) % 3) : 0;
+    int mypos   = ndecoys ? static_cast<int>((seed >> 44) % static_cast<uint64_t>(ndecoys + 1)) : 0;
+    for (int i = 0; i <= ndecoys; ++i)
+    {
+      if (i == mypos)
+        provider->AddMetricReader(reader);
+      if (i == ndecoys)
+        break;
+      auto ds  = std::make_shared<Script>();
+      ds->seed = seed + 17 * static_cast<uint64_t>(i + 1);
+      ds->id   = static_cast<uint64_t>(i + 1);
+      ds->batch_ids.store(1000000ull * static_cast<uint64_t>(i + 1), std::memory_order_relaxed);
+      ds->latency_mode = static_cast<int>((seed >> (48 + 2 * i)) & 3) == 3 ? 2 : static_cast<int>((seed >> (48 + 2 * i)) & 1);
+      ds->slow_us      = 1500;
+      ds->flush_false  = ((seed >> (52 + i)) & 3) == 0;
+      decoy_scripts.push_back(ds);
+      std::shared_ptr<sdkmetrics::MetricReader> dr(new sdkmetrics::PeriodicExportingMetricReader(
+          std::unique_ptr<sdkmetrics::PushMetricExporter>(new RecMetricExporter(ds)), opt));
+      decoy_readers.push_back(dr);
+      provider->AddMetricReader(dr);
+    }
+    if (ndecoys)
+      R.count("histories_periodic_multi_reader");
     auto meter   = provider->GetMeter("e2");
     auto counter = meter->CreateUInt64Counter("c");
     nostd::shared_ptr<opentelemetry::metrics::ObservableInstrument> gauge;
@@ -1756,6 +1782,7 @@ static void run_periodic_history(uint64_t seed, bool thorough)
     counter = nostd::unique_ptr<opentelemetry::metrics::Counter<uint64_t>>(nullptr);
     meter   = nostd::shared_ptr<opentelemetry::metrics::Meter>(nullptr);
     reader.reset();
+    decoy_readers.clear();
     provider.reset();
   }
   vf_configure(0, 0, 0, 0, 0, 0);
@@ -1788,6 +1815,11 @@ static void run_periodic_history(uint64_t seed, bool thorough)
         add_rets[e.a].push_back(e.t);
         break;
       case kExportEnter:
+        if (e.a >= 1000000ull)
+        {
+          open_by_tid.erase(e.tid);  // a decoy reader's exporter
+          break;
+        }
         by_id[e.a]         = exports.size();
         open_by_tid[e.tid] = exports.size();
         exports.push_back(PB{e.t, ~0ull, {}});
@@ -1800,13 +1832,16 @@ static void run_periodic_history(uint64_t seed, bool thorough)
         break;
       }
       case kExportExit:
-        exports[by_id[e.a]].exit = e.t;
+        if (e.a < 1000000ull)
+          exports[by_id[e.a]].exit = e.t;
         break;
       case kExpFlushEnter:
-        open_flush[e.tid] = e.t;
+        if (e.a == 0)
+          open_flush[e.tid] = e.t;
         break;
       case kExpFlushExit:
-        exp_flush.emplace_back(open_flush[e.tid], e.t);
+        if (e.a == 0)
+          exp_flush.emplace_back(open_flush[e.tid], e.t);
         break;
       case kFlushCall:
         fidx[e.a] = flushes.size();
